@@ -89,5 +89,14 @@ CHECKS = {
         note="Out of domain: macro with a non-identifier variable, has() of a non-selection, the non-standard reduce()/min() macros.",
         design_ref="DESIGN.md §4 C04",
     ),
+    "C03": dict(
+        technique="differential testing (Hypothesis): interpreted vs compiled runner on generated well-typed and ill-typed programs and the (mutated) conformance corpus, mismatches localised to the smallest disagreeing sub-expression",
+        category="exploration",
+        text="Type-directed and grammar-directed programs x generated activations, every conformance-corpus expression (+ edge supplement) verbatim and with one "
+             "mutation (absorbing contexts, operator swap, literal replacement): equal canonical value of the same class skeleton, or an error in both; a crash of "
+             "either runner (incl. program()) is a mismatch.",
+        note="Each runner gets its own lark parser; message text of errors not compared; three recorded findings (compiled has() bool, error values used as data, message literals) are excluded by narrow root-cause keys.",
+        design_ref="DESIGN.md §4 C03",
+    ),
 }
 NOT_APPLICABLE = {}
